@@ -361,6 +361,41 @@ theorem wire_text (s : List Nat) (hs : CanonText s) (w : Nat) (hlen : s.length â
   simp only [check, beq_iff_eq]
   rw [â† decodeAscii6_eq_text _ hpad, hd]
 
+/-- a payload-sized bit string with the given bits set -/
+def bitsWith (ones : List Nat) : Bits := (List.range 168).map fun i => ones.contains i
+
+/-- the discriminator keywords of the four multi-layout types, with the bit position of each
+(the most significant bit first for the two-bit part number) and the assignments to try -/
+def variantCases : List (String Ã— List (List (String Ã— Val) Ã— List Nat)) := [
+  ("MessageType22", [([("addressed", .bool true)], [139]), ([("addressed", .bool false)], []), ([], []),
+                     ([("addressed", .int 1)], [139]), ([("addressed", .int 0)], [])]),
+  ("MessageType24", [([("partno", .int 0)], []), ([("partno", .int 1)], [39]), ([], []),
+                     ([("partno", .int 2)], [38]), ([("partno", .int 3)], [38, 39])]),
+  ("MessageType25", [([("addressed", .bool true), ("structured", .bool true)], [38, 39]),
+                     ([("addressed", .bool true), ("structured", .bool false)], [38]),
+                     ([("addressed", .bool false), ("structured", .bool true)], [39]),
+                     ([("addressed", .bool false), ("structured", .bool false)], []),
+                     ([("structured", .bool true)], [39]), ([("addressed", .bool true)], [38]), ([], [])]),
+  ("MessageType26", [([("addressed", .bool true), ("structured", .bool true)], [38, 39]),
+                     ([("addressed", .bool true), ("structured", .bool false)], [38]),
+                     ([("addressed", .bool false), ("structured", .bool true)], [39]),
+                     ([("addressed", .bool false), ("structured", .bool false)], []),
+                     ([("structured", .bool true)], [39]), ([("addressed", .bool true)], [38]), ([], [])])]
+
+/-- **Variant selection on `create` agrees with variant selection on decoding**: for every
+multi-layout type and every assignment of its discriminator keywords (absent = the default), the
+class `create()` chooses is the class the decoder chooses for a payload whose discriminator bits
+carry those values (both trees are read from the source). -/
+theorem variants_consistent :
+    (variantCases.all fun (d, cases) =>
+      match env.createTrees.lookup d, env.decodeTrees.lookup d with
+      | some ct, some dt => cases.all fun (kw, ones) =>
+          (match ct.run (fun t => t.evalKw kw), dt.run (fun t => .ok (t.evalBits (bitsWith ones))) with
+           | .ok a, .ok b => a == b
+           | .error e, .error e' => e == e'
+           | _, _ => false)
+      | _, _ => false) = true := by decide +kernel
+
 /-- **Both entry points**: `encode_dict` (type given as `type` or as `msg_type`) is `create`
 followed by `encode_msg`. -/
 theorem C02_encode_dict (kw : List (String Ã— Val)) (talker chan : Bytes) (t : Int) (cls : String) (m : Msg)
@@ -559,6 +594,7 @@ example : Wire C08.E Generated.T_MessageType10
 #print axioms wire_unsigned_float
 #print axioms wire_binary
 #print axioms wire_rot
+#print axioms variants_consistent
 #print axioms C02_encode_dict
 #print axioms C02_create
 #print axioms C02_quantisation_positions
